@@ -233,6 +233,9 @@ def modify_rules(ctx, m, with_typestate=True):
     # matching loop on every path with trading on - whatever was or was not changed by the request (shared with C01/C02/C13)
     if with_typestate:
         c02.never_crossed(ctx, m, rule="replace-rematch")
+        # .. and that loop tests the order's NEW price (the value just assigned), against the current best price
+        from .c01 import matching_loop_rules
+        matching_loop_rules(ctx, m, RULE="replace-rematch-loop")
     # K1/K3 of the re-queue key: C01's key rules on the whole-operation view of modify_order
     from .c01 import key_write_rules
     n_key = key_write_rules(ctx, m, [f], k1="replace", k3="replace")
